@@ -537,6 +537,31 @@ func (e *Engine) edgeCond(f *frame, from, to *ssa.BasicBlock) *smt.Term {
 	return e.X.True
 }
 
+// splitOn lets a non-branch condition take part in path splitting: when the enclosing frame is
+// explored path by path the condition is decided like a branch (both values get their own path).
+func (e *Engine) splitOn(f *frame, c *smt.Term) (want bool, forced bool) {
+	if !f.split || c.IsConst() || c.IsTrue() || c.IsFalse() {
+		return false, false
+	}
+	flip := false
+	if c.Op == "not" {
+		c, flip = c.Args[0], true
+	}
+	key := fmt.Sprintf("c%d", c.ID())
+	w, ok := e.forced[key]
+	if !ok {
+		if !e.undecidedSeen[key] {
+			e.undecidedSeen[key] = true
+			e.undecided = append(e.undecided, key)
+		}
+		return false, false
+	}
+	if flip {
+		w = !w
+	}
+	return w, true
+}
+
 // operand evaluates an SSA value in the frame.
 func (e *Engine) operand(f *frame, v ssa.Value) Val {
 	switch x := v.(type) {
